@@ -37,6 +37,9 @@ structure Out where
   evs : List Ev
   status : Option Err
   clean : Bool := false
+  /-- the error that made `Next()` return false (it ends the loop silently; the decoder keeps it as its sticky error
+  `d.err`, which a further `Decode()` call returns) -/
+  swallowed : Option Err := none
   deriving DecidableEq, Repr, Inhabited
 
 /-- forget which of the two end-of-stream errors it was -/
@@ -44,7 +47,7 @@ def Err.merge : Err → Err
   | .io e => .io e.merge
   | e => e
 
-def Out.merge (o : Out) : Out := { o with status := o.status.map Err.merge }
+def Out.merge (o : Out) : Out := { o with status := o.status.map Err.merge, swallowed := o.swallowed.map Err.merge }
 
 structure Def where
   arch : Nat
@@ -216,9 +219,9 @@ def decodeLoop (chk : Bool) : Nat → Bool → List Ev → P
   | fuel + 1, first, evs =>
     fileHeader chk
       (fun e => if first then .ret { evs := evs.reverse, status := some (.io e) }
-                else .ret { evs := evs.reverse, status := none, clean := e == .eof })
+                else .ret { evs := evs.reverse, status := none, clean := e == .eof, swallowed := some (.io e) })
       (fun e => if first then .ret { evs := evs.reverse, status := some e }
-                else .ret { evs := evs.reverse, status := none })
+                else .ret { evs := evs.reverse, status := none, swallowed := some e })
       fun h =>
         messages chk h.dataSize h.dataSize { evs := evs } fun st =>
           fileCrc chk st fun c =>
